@@ -438,6 +438,14 @@ func oracleFor(op *Sexp, res string) []string {
 		if res != "ok same" {
 			bad("registering a codec after a failed first use: %s", res)
 		}
+	case "entriespresent":
+		// never more than it was told, never more than one per byte of the body
+		d, _ := unhx(arg(1))
+		mx, _ := atoiU(arg(2))
+		n, err := strconv.ParseUint(strings.TrimPrefix(res, "ok "), 10, 64)
+		if err != nil || n > mx || n > uint64(len(d)) {
+			bad("entriesPresent(%d bytes, max %d) = %s", len(d), mx, res)
+		}
 	case "descconc", "jconc", "regintern", "entryorder", "reginterntag", "regmapkind":
 		if res != "ok" {
 			bad("%s: %s", op.head(), res)
